@@ -306,6 +306,47 @@ def snapshot_round_trip(ctx, repo, rule):
     ctx.floor(rule, "snapshot round trips interpreted", n, 6)
 
 
+def traffic_log_round_trip(ctx, repo, rule):
+    """R3 by interpretation: a 1024-byte block is cut into 39-byte STATV segments by the library's own builder
+    (GeckoStatusBlockProtocolHandler.response inside a <PACKT> frame), each datagram is rendered the way the debug log
+    shows received bytes (repr of the bytes in a log line), and every line is fed to GeckoSnapshot.parse on a snapshot
+    built by its constructor: the snapshot's bytes are the block.  Blocks: every byte value (quotes, backslashes,
+    newlines included), zeros, text that looks like tags and list punctuation."""
+    from ..absint import ClassRef, Interp, Obj, PyRaise, Undecided
+    H = "GeckoStatusBlockProtocolHandler"
+    cases = (("all-byte-values", bytes(range(256)) * 4), ("zeros", bytes(1024)), ("tag-like-text", (b"</DATAS>'\\x27 STATV [0x1, '0x2']\n" * 40)[:1024]))
+    n = 0
+    for key, block in cases:
+        it = Interp(repo, max_depth=14)
+        lines = []
+        try:
+            nseg = (len(block) + 38) // 39
+            for i in range(nseg):
+                data = block[i * 39:(i + 1) * 39]
+                msg = it.call(repo.method(H, "response"), None, [i, (i + 1) % nseg, data], {"parms": ("10.0.0.5", 10022, b"SPA-ID", b"IOS-CLIENT")})
+                wire = it.getattr(msg, "send_bytes")
+                if not isinstance(wire, (bytes, bytearray)):
+                    raise Undecided(f"send_bytes of a concrete segment is {type(wire).__name__}")
+                lines.append(f"2020-12-08 19:53:28,310 geckolib.driver.udp_socket DEBUG Received {bytes(wire)!r} from ('10.0.0.5', 10022)\n")
+            snap = it.apply(ClassRef(repo.cls("GeckoSnapshot")), [], {})
+            for ln in lines:
+                it.steps = 0
+                it.call(repo.method("GeckoSnapshot", "parse"), snap, [ln])
+            got = it.getattr(snap, "bytes")
+        except PyRaise as e:
+            got = f"raises {e.what}"
+        except Undecided as e:
+            raise AnalysisError(f"traffic-log round trip ({key}): {e}")
+        n += 1
+        ok = isinstance(got, (bytes, bytearray)) and bytes(got) == block
+        first = next((i for i in range(min(len(got), len(block))) if got[i] != block[i]), None) if isinstance(got, (bytes, bytearray)) else None
+        ctx.ob(rule, f"traffic-log::{key}", ok,
+               f"a traffic log of {len(lines)} STATV datagrams carrying a {len(block)}-byte block ({key}) read by GeckoSnapshot.parse gives "
+               f"{(str(len(got)) + ' bytes, first difference at ' + str(first)) if isinstance(got, (bytes, bytearray)) else got!r}: the raw traffic log does not reassemble to the transferred block",
+               repo.method("GeckoSnapshot", "parse").loc, sample={"rule": rule, "case": key, "datagrams": len(lines)})
+    ctx.floor(rule, "traffic logs interpreted", n, 3)
+
+
 def reader_table(repo):
     """[(pattern text, handler method name)] of the snapshot reader, in table order, however the table is kept: a list
     of (pattern, bound method) pairs built in __init__, or a class-level tuple of records holding a compiled pattern and
@@ -325,6 +366,11 @@ def reader_table(repo):
                 cands.append(it._class_value(k, nm))
             except (PyRaise, Undecided):
                 continue
+    for nm in cls.mod.consts:      # ... or a module-level table next to the class
+        try:
+            cands.append(it._module_value(cls.mod, nm))
+        except (PyRaise, Undecided, Exception):  # noqa: BLE001 - a module constant the interpreter cannot evaluate is not the table
+            continue
     methods = {m for k in repo.mro(cls) for m in k.methods}
 
     def row(r):
@@ -413,7 +459,7 @@ def check(ctx):
     ctx.floor("R1", "aligned writer/reader line pairs", n_al, 5)
     # "Snapshot (%s)"
     ds = repo.method("GeckoShell", "do_snapshot")
-    hdr = [n for n in ast.walk(ds.node) if isinstance(n, ast.Call) and call_name(n) == "info" and n.args and isinstance(n.args[0], ast.Constant) and "Snapshot" in str(n.args[0].value)]
+    hdr = [n for n in ast.walk(ds.node) if isinstance(n, ast.Call) and n.args and isinstance(n.args[0], ast.Constant) and "Snapshot" in str(n.args[0].value)]   # logger.info / a local bound to it
     ok = len(hdr) == 1 and hdr[0].args[0].value == "Snapshot (%s)"
     ctx.ob("R1", "line::Snapshot-header", ok and "_re_snapshot_alt" in by_fn and regex_skeleton(by_fn["_re_snapshot_alt"]) == [("lit", "Snapshot ("), ("group", "any"), ("lit", ")")],
            "the `Snapshot (<name>)` header written by do_snapshot is not what _re_snapshot_alt reads", ds.loc)
@@ -438,34 +484,33 @@ def check(ctx):
     ctx.ob("R1", "parse_log_file::markers", "'Snapshot' in line" in t and "'INFO' in line" in t, "parse_log_file no longer keys on the 'Snapshot' and 'INFO' markers the shell's log format carries", plf.loc)
 
     # ---- R2 block dump: what the writer logs is checked on the interpreted writer (snapshot_round_trip); here the reader
+    # (its pattern applied to the dumps the writer produces, and its handler interpreted on what the pattern captured)
     pat = by_fn.get("_re_data")
-    ok = pat is not None
-    if ok:
-        sk = regex_skeleton(pat)
-        ok = sk == [("lit", "["), ("group", "class"), ("lit", "]")]
-        import re._parser as sre
-        grp = [av for op, av in sre.parse(pat) if str(op) == "SUBPATTERN"][0][3][0][1][2][0][1]
-        chars = set()
-        for op, av in grp:
-            if str(op) == "LITERAL":
-                chars.add(chr(av))
-            elif str(op) == "RANGE":
-                chars |= {chr(c) for c in range(av[0], av[1] + 1)}
-        need = set("0123456789abcdefx', ")
-        ok = ok and need <= chars
-    ctx.ob("R2", "reader::list-regex-admits-dump", ok, f"the list regex {pat!r} does not admit every character of a hex list dump", snap_init.loc, sample={"rule": "R2", "regex": pat})
     rd = repo.method("GeckoSnapshot", "_re_data")
-    t = ast.unparse(rd.node)
-    ctx.ob("R2", "reader::parses-hex-elements", bool(re.search(r"int\((\w+)\.strip\(\)\[1:-1\], 16\)", t)) and ".split(',')" in t, f"_re_data does not parse each comma-separated element with int(strip()[1:-1], 16)", rd.loc)
-    ctx.ob("R2", "reader::bytes", "bytes(bytearray(" in t or "bytes([" in t, "_re_data does not build a bytes object", rd.loc)
+    from ..absint import ClassRef as _CR2, Interp as _I2, PyRaise as _PR2, Undecided as _UD2
+    for key, block in (("all-byte-values", bytes(range(256)) * 4), ("zeros", bytes(1024)), ("one-byte", b"\x05")):
+        dump = str([hex(b) for b in block])
+        m_ = re.search(pat, "INFO:geckolib.utils.shell:" + dump + "\n", re.DOTALL) if pat is not None else None
+        ctx.ob("R2", f"reader::list-regex-admits-dump::{key}", m_ is not None and m_.group(0) == dump,
+               f"the block-dump row {pat!r} applied to the dump of a {len(block)}-byte block ({key}) matches {m_.group(0)[:40] + '...' if m_ else None!r}, not the whole list", snap_init.loc,
+               sample={"rule": "R2", "regex": pat, "case": key})
+        if m_ is None:
+            continue
+        it2 = _I2(repo, max_depth=8)
+        try:
+            snap2 = it2.apply(_CR2(repo.cls("GeckoSnapshot")), [], {})
+            it2.call(rd, snap2, [m_.groups()])
+            got2 = it2.getattr(snap2, "bytes")
+        except _PR2 as e:
+            got2 = f"raises {e.what}"
+        except _UD2 as e:
+            raise AnalysisError(f"GeckoSnapshot._re_data on a captured dump: {e}")
+        ctx.ob("R2", f"reader::parses-hex-elements::{key}", isinstance(got2, (bytes, bytearray)) and bytes(got2) == block,
+               f"_re_data given what the block-dump row captured from the dump of a {len(block)}-byte block ({key}) stores {got2 if isinstance(got2, str) else (len(got2), bytes(got2[:8]))!r}: not the block", rd.loc)
 
     # ---- R3 traffic log ---------------------------------------------------------------------------
-    rs = repo.method("GeckoSnapshot", "_re_data_segment")
-    t = ast.unparse(rs.node)
-    ok = "self._status_block_handler.handle(" in t and "self._status_block_segments.append(self._status_block_handler.data)" in t and "if self._status_block_handler.next == 0" in t and "b''.join(self._status_block_segments)" in t
-    ctx.ob("R3", "_re_data_segment::decode-and-join", ok, "_re_data_segment does not decode segments with the STATV handler and join them on next == 0", rs.loc)
-    ok = "GeckoStatusBlockProtocolHandler()" in ast.unparse(snap_init.node)
-    ctx.ob("R3", "snapshot::uses-real-decoder", ok, "the snapshot reader does not use GeckoStatusBlockProtocolHandler (C04) to decode segments", snap_init.loc)
+    traffic_log_round_trip(ctx, repo, "R3")
+    ok = True
     ctx.ob("R3", "regex::segment", by_fn.get("_re_data_segment") == r"(STATV.*)</DATAS>", f"segment regex is {by_fn.get('_re_data_segment')!r}", snap_init.loc)
 
     # ---- R4 shipped snapshots ------------------------------------------------------------------------
